@@ -8,7 +8,7 @@ ENV = "GOFLAGS=-mod=mod GOPROXY=off GOSUMDB=off GOTOOLCHAIN=local GOWORK=off"
 
 # id -> (technique, level text, level note, design ref)
 CLAIMED = {
-    "C12": ("lockset + guard-dominance + must-pass-through + def-use over go/ssa (custom checker) + baton-passing after cond.Wait + clamp bound followed into helpers (every return bounded by the limit parameter) + reachability of the running-set insertion under an assumed job state (caller/callee agreement on re-attach) + unit conversion before rounding (no float->int conversion multiplied by a constant afterwards) + backward slice of the usage measurement feeding the semaphore (own process excluded) + control independence of re-attach calls from earlier re-attach results (both arms of a tainted branch reach the same call sites)",
+    "C12": ("lockset + guard-dominance + must-pass-through + def-use over go/ssa (custom checker) + baton-passing after cond.Wait + clamp bound followed into helpers (every return bounded by the limit parameter) + reachability of the running-set insertion under an assumed job state (caller/callee agreement on re-attach) + unit conversion before rounding (no float->int conversion multiplied by a constant afterwards) + backward slice of the usage measurement feeding the semaphore (own process excluded) + control independence of re-attach calls from earlier re-attach results (both arms of a tainted branch reach the same call sites) + endJob dominated by a state comparison",
             "Structural necessary conditions decided exhaustively over the current source: lock discipline of the semaphore fields, "
             "capacity test dominates every grant in the same critical section, acquire/release pairing on all paths, clamp before acquire, "
             "wake-up after every release/resize, FIFO head-of-line, single acquisition order. All interleavings are covered at once because the rules "
@@ -18,17 +18,17 @@ CLAIMED = {
 }
 
 CLAIMED.update({
-    "C02": ("who-may-call (VTA call graph) + guard dominance with invalidation + path-sensitive all-elements-flag search + forward provenance over go/ssa + must-pass-through (raw reference pass) + runtime/scheduler agreement on merges without fork node + element-wise reference enumeration of the disabling conditions (FindRefs on every entry) + cache-invalidation pairing (a remembered scan position of the chunk list is cleared wherever the list is replaced) + reference identity (a comparison of two references' output paths is accompanied by one of their call ids)",
+    "C02": ("who-may-call (VTA call graph) + guard dominance with invalidation + path-sensitive all-elements-flag search + forward provenance over go/ssa + must-pass-through (raw reference pass) + runtime/scheduler agreement on merges without fork node + element-wise reference enumeration of the disabling conditions (FindRefs on every entry) + cache-invalidation pairing (a remembered scan position of the chunk list is cleared wherever the list is replaced) + reference identity (a comparison of two references' output paths is accompanied by one of their call ids) + every verdict of the disable classifier false after the reference arm (arm followed to the loop header, phis resolved)",
             "Structural necessary conditions of the ordering decided for all programs and schedules at once, because they are facts about the scheduler's code: exact caller sets of the submission chain, "
             "phase guards in stepStage, the all-chunks-complete flag, the waiting rule of Node.getState, dependency sources (inputs, disabled condition, return bindings, fork roots) flowing into the prenode/postnode sets, preflight prenodes incl. recursion into sub-pipelines.",
             "Not decided: that FindRefs returns every reference (value-level recursion), state derivation from real files, job manager internals. Trusts go/ssa and the VTA call graph.",
             "DESIGN.md §4 C02"),
-    "C03": ("guard dominance + must-pass-through + who-may-call over go/ssa; disjunctive at-most-once rule + may-alias fix-point over package syntax (shared Disable list never extended in place) + copy-on-write discipline of shared fork-id parts (pointer provenance: caller's part joined with a private copy, guard compares len(node.forks) with Fork.index, followed into helpers) + must-pass-through (zero-length ranges examined before any enabled verdict of Fork.disabled) + sibling agreement of the chunk-directory width at every creator of chunk objects + no store through a shared fork-id part parameter in the static enumeration + the arm for a narrowed null returns the narrowed value (no job for a null element)",
+    "C03": ("guard dominance + must-pass-through + who-may-call over go/ssa; disjunctive at-most-once rule + may-alias fix-point over package syntax (shared Disable list never extended in place) + copy-on-write discipline of shared fork-id parts (pointer provenance: caller's part joined with a private copy, guard compares len(node.forks) with Fork.index, followed into helpers) + must-pass-through (zero-length ranges examined before any enabled verdict of Fork.disabled) + sibling agreement of the chunk-directory width at every creator of chunk objects + no store through a shared fork-id part parameter in the static enumeration + the arm for a narrowed null returns the narrowed value (no job for a null element) + fork count derives from len of a decoded value only + private copy of a shared fork-id part whenever the node has several forks",
             "Structural necessary conditions: at-most-once submission (flag test-and-set OR synchronous _jobinfo record before execJob), disabled test before any submission/completion, "
             "empty/null mapped collections reach writeDisable, zero-length range reports disabled, skip() only for preflights under SkipPreflight.",
             "Not decided: one fork per element/key (run-time counts), liveness (no job skipped). The at-most-once rule is a disjunction on purpose: removing one of the two redundant mechanisms keeps behaviour and must not alarm.",
             "DESIGN.md §4 C03"),
-    "C06": ("guard dominance + must-pass-through + phi-web analysis + who-may-call over go/ssa (core, cmd/mrjob, cmd/mrp) + all-elements verdict followed through boolean-returning helpers (path-sensitive product search per helper, call sites as sites one level up) + verdict consistency (false after a recorded failure) + cache-invalidation pairing (must-pass-through) + coverage of failure-marker locations by the partial reset + must-pass-through under a re-established premise (a re-submitted split stores a fresh chunk list) + nil-test after decoding into a pointer field + may-reach of verifyDef on the preloaded-chunks edge + condition-implies-action for orphaned Running nodes + set-once guard dominance on the not-running timestamp + must-pass-through of the end-of-refresh pass on every non-error return of refreshState (loop entry counts) + must-pass-through of a parse before the chunk's outs become the join's",
+    "C06": ("guard dominance + must-pass-through + phi-web analysis + who-may-call over go/ssa (core, cmd/mrjob, cmd/mrp) + all-elements verdict followed through boolean-returning helpers (path-sensitive product search per helper, call sites as sites one level up) + verdict consistency (false after a recorded failure) + cache-invalidation pairing (must-pass-through) + coverage of failure-marker locations by the partial reset + must-pass-through under a re-established premise (a re-submitted split stores a fresh chunk list) + nil-test after decoding into a pointer field + may-reach of verifyDef on the preloaded-chunks edge + condition-implies-action for orphaned Running nodes + set-once guard dominance on the not-running timestamp + must-pass-through of the end-of-refresh pass on every non-error return of refreshState (loop entry counts) + must-pass-through of a parse before the chunk's outs become the join's + defer order (an exiting defer is not registered after another defer) in the stage adapter and mrjob",
             "Structural necessary conditions: failure markers take precedence in the state function; the monitor writes _complete only on success and always records a failure; the local job manager reports failed processes; "
             "every fork-level _complete is dominated by output validation; join only after all chunk outputs were read and verified; failed nodes release nobody; success exit status only from the completed-cleanup path.",
             "Not decided: error text naming the stage, retry classification regexes, the Python adapter, restart behaviour after the fault is removed.",
@@ -49,19 +49,19 @@ CLAIMED.update({
 })
 
 CLAIMED.update({
-    "C04": ("deletion-site ownership table + who-may-call + guard dominance + backward string provenance + lockset (Fork.storageLock) over go/ssa + must-pass-through (alias completeness) + empty-path guard + sibling agreement of the type-less projection (recursion inside a range-over-map loop as inside the array loop) + provenance of the walked file's names (getLogicalFileNames on all paths) + every-path / every-iteration registration of the nil consumer for outputs and retains (entry point or Fork-method helper) + type-assertion guard on the struct-style lookup of the type-aware projection (thin wrappers followed to their delegate)",
+    "C04": ("deletion-site ownership table + who-may-call + guard dominance + backward string provenance + lockset (Fork.storageLock) over go/ssa + must-pass-through (alias completeness) + empty-path guard + sibling agreement of the type-less projection (recursion inside a range-over-map loop as inside the array loop) + provenance of the walked file's names (getLogicalFileNames on all paths) + every-path / every-iteration registration of the nil consumer for outputs and retains (entry point or Fork-method helper) + type-assertion guard on the struct-style lookup of the type-aware projection (thin wrappers followed to their delegate) + no raw-byte inspection beyond the first byte in getMaybeFileNames + unicode-escape allowance of the separator shortcut",
             "Structural necessary conditions decided for all interleavings at once: every os.Remove/RemoveAll of package core sits in a tabled function; files-path deleters are reachable only through partialVdrKill; a full kill needs Disabled or Complete with no waiting file post-node; "
             "consumers leave the waiting set only when seen Complete/Disabled and never the nil consumer; only files with a nil keep-alive set reach os.RemoveAll; chunk files only under Split(); top-level outputs and retains carry the nil consumer; cloned forks inherit the bookkeeping; the three maps are touched only under storageLock (constructor-phase exceptions tabled).",
             "Not decided: whether getLogicalFileNames/anyOverlap find every alias (file-system values); stages passing upstream paths through (excluded by the property).",
             "DESIGN.md §4 C04"),
-    "C14": ("backward string provenance of removal targets + report/removal pairing + guard dominance over go/ssa (partial claim) + counted-once (entry leaves the cache) + containment-by-prefix needle ends with a separator + verdict agreement (no constant-false done result on a path that wrote the final report) + must-pass-through of the symlink check before every destructive callee of the per-fork sweep (or at all calls) + freshness of per-fork maps stored in a loop over forks + loop-variable dependence of the ancestor walk + O_NOFOLLOW (flag constant) on the root of util.Walk + nil-only guard on giving up in cacheParamFileMap + not-exist tolerance of the chunk temp sweep",
+    "C14": ("backward string provenance of removal targets + report/removal pairing + guard dominance over go/ssa (partial claim) + counted-once (entry leaves the cache) + containment-by-prefix needle ends with a separator + verdict agreement (no constant-false done result on a path that wrote the final report) + must-pass-through of the symlink check before every destructive callee of the per-fork sweep (or at all calls) + freshness of per-fork maps stored in a loop over forks + loop-variable dependence of the ancestor walk + O_NOFOLLOW (flag constant) on the root of util.Walk + nil-only guard on giving up in cacheParamFileMap + not-exist tolerance of the chunk temp sweep + kill-report reads dominated by storageLock.Lock",
             "Structural necessary conditions: every path VDR removes originates from the stage's own metadata accessors or from file-cache keys produced by walking enumerateFiles(); no VDR across a symlinked ancestor; the slice reported is the slice removed, removal lies between recording and writing the report, inside a critical section; per-phase temp cleanup is state-guarded, flagged once and persisted.",
             "Partial: equality of Count/Size with bytes removed, completeness (no volatile file survives) and merge arithmetic are run-time values and not decided.",
             "DESIGN.md §4 C14"),
 })
 
 CLAIMED.update({
-    "C05": ("must-pass-through ordering + guard dominance + who-may-call + interface-implementation enumeration over go/ssa (core, util, cmd/mrjob, cmd/mrp) + must-do (state re-derived after reset) + condition-implies-action (after an edge on which the restart condition holds every path to the entry point's return resets; verdict-returning helpers followed with the returned constants assumed) + condition-implies-action search with known facts (dominator-chain relations, loads of one access path) and with an assumed state value (contradicting edges pruned) + data dependence of the regenerated uniquifier on the previous one + loop-phase order (states derived only after every node loaded its metadata) + write-then-rename of the metadata archive + full reset renews the uniquifiers + sibling agreement of the chunk-directory width between first run and re-attach + condition-implies-action for orphaned Running nodes at re-attach + write-then-rename of extracted metadata files + ordering comparison in the uniquifier generator + must-pass-through of the submit command before the queue sentinel is removed (successful returns include the nil verdict of a helper)",
+    "C05": ("must-pass-through ordering + guard dominance + who-may-call + interface-implementation enumeration over go/ssa (core, util, cmd/mrjob, cmd/mrp) + must-do (state re-derived after reset) + condition-implies-action (after an edge on which the restart condition holds every path to the entry point's return resets; verdict-returning helpers followed with the returned constants assumed) + condition-implies-action search with known facts (dominator-chain relations, loads of one access path) and with an assumed state value (contradicting edges pruned) + data dependence of the regenerated uniquifier on the previous one + loop-phase order (states derived only after every node loaded its metadata) + write-then-rename of the metadata archive + full reset renews the uniquifiers + sibling agreement of the chunk-directory width between first run and re-attach + condition-implies-action for orphaned Running nodes at re-attach + write-then-rename of extracted metadata files + ordering comparison in the uniquifier generator + must-pass-through of the submit command before the queue sentinel is removed (successful returns include the nil verdict of a helper) + chunk directories re-created by Fork.mkdirs + pipestance creation dominated by EnterCriticalSection",
             "Crash-point enumeration is not static; decided instead are the ordering and ownership rules that make a crash at any point recoverable: durable-before-announced in the job monitor and in runJob, reset only of failed/orphaned work (never Complete), fresh uniquifier per attempt and stale notifications ignored, "
             "lock life-cycle and signal shutdown order, balanced critical sections that no HandleSignal enters and that enclose the multi-file updates.",
             "Not decided: equality of final outputs with an uninterrupted run, behaviour at each individual crash prefix, PID reuse. A lock leak on a non-signal error path of instantiatePipeline is outside the property's wording (handled signals) and reported as information in DESIGN.md.",
@@ -69,7 +69,7 @@ CLAIMED.update({
 })
 
 CLAIMED.update({
-    "C08": ("who-may-call + must-pass-through (deferred recover barrier) + guard dominance over go/ssa + include-graph acyclicity (guarded edge insertion) + may-be-nil propagation of the top-level call's nil *Pipeline + no per-node allocation sized by the remaining input + freshly filtered error lists (no return of the receiver slice from ErrorList.If) + non-negativity of Repeat counts (clamps, guards, or a width whose every origin - followed through parameters, results and phis - is an unconditional running maximum) + located errors from type registration + must-pass-through of a pipeline-cycle search before compilePipelineDecs succeeds + guard dominance of the call-mode panic by the null-source arm",
+    "C08": ("who-may-call + must-pass-through (deferred recover barrier) + guard dominance over go/ssa + include-graph acyclicity (guarded edge insertion) + may-be-nil propagation of the top-level call's nil *Pipeline + no per-node allocation sized by the remaining input + freshly filtered error lists (no return of the receiver slice from ErrorList.If) + non-negativity of Repeat counts (clamps, guards, or a width whose every origin - followed through parameters, results and phis - is an unconditional running maximum) + located errors from type registration + must-pass-through of a pipeline-cycle search before compilePipelineDecs succeeds + guard dominance of the call-mode panic by the null-source arm + self-comparison guard on every dependency insertion of directDepsMap (in the closure or at all of its calls)",
             "Parse stage only. Structural necessary conditions: every caller of the generated parser installs a recover barrier that turns any panic of lexer, grammar action or literal conversion into a located parse failure (found four crashing inputs, fixed by adding the barrier); "
             "lexer progress (non-empty tokens, cursor advances every iteration); bounded include recursion.",
             "Not decided: panics in the compile phase (counted as information), time/memory proportionality (RE2 linearity assumed), errors without position.",
@@ -77,14 +77,14 @@ CLAIMED.update({
 })
 
 CLAIMED.update({
-    "C09": ("table agreement between parse side (fields fed by unquote, computed by taint over the generated grammar actions) and format side (provenance with quoteString as sanitizer); escape-set extraction from quoteString vs the lexer's string regexp constant; must-pass-through field examination (every path of a node's format method reads each content field of a frozen table, predicate helpers expanded) + loop-exit rule on the wildcard while the compiler extends the binding list (premise re-established) + comment fields examined exactly once per format path + loop-index recurrence of the in-place topological sort (slot re-examined after a shift) + split operand comments printed + comment/scope-comment tests followed into helpers and accessors + load-before-clear and clear-after-hand-over of comment fields (must-pass-through) + bounded float->integer conversion in formatGB + multiple-preserving guard in roundUpTo + comments of an empty binding list printed + sign write on the negative edge of formatGB",
+    "C09": ("table agreement between parse side (fields fed by unquote, computed by taint over the generated grammar actions) and format side (provenance with quoteString as sanitizer); escape-set extraction from quoteString vs the lexer's string regexp constant; must-pass-through field examination (every path of a node's format method reads each content field of a frozen table, predicate helpers expanded) + loop-exit rule on the wildcard while the compiler extends the binding list (premise re-established) + comment fields examined exactly once per format path + loop-index recurrence of the in-place topological sort (slot re-examined after a shift) + split operand comments printed + comment/scope-comment tests followed into helpers and accessors + load-before-clear and clear-after-hand-over of comment fields (must-pass-through) + bounded float->integer conversion in formatGB + multiple-preserving guard in roundUpTo + comments of an empty binding list printed + sign write on the negative edge of formatGB + raw hex byte appended only in the \\x arm of the string decoder",
             "Structural necessary conditions: every AST string the parser obtains with unquote reaches formatted text only through quoteString (found raw emission of stage src and include paths, fixed); quoteString copies unescaped only bytes >= 0x20 other than quote/backslash; every escape it writes is lexed by the string rule and decoded by unquoteBytes.",
             "Not decided: idempotence, comment placement, number printing (%g, formatGB), topological order, include-expanded rendering.",
             "DESIGN.md §4 C09"),
 })
 
 CLAIMED.update({
-    "C10": ("iteration-order analysis of every range-over-map loop reachable from the deterministic entry points (SSA loop bodies, effect classification, collect-then-sort recognition, call-effect fix-point over the VTA call graph) + self-validating triage table + positive examples + sibling agreement of key-order comparators + completeness of location comparisons in comparators of map-collected keys (closures and Less methods, accessors looked through) + scope extended to the text rendering of `mro graph` + comparator-indexes-the-sorted-slice (captured cells and receiver field paths resolved) + returns count as uses of an accumulator stored into an escaping cell + deep variance of freshly allocated return values (fields stored with loop-variant values) + scope extended to argument/output validation text + re-validated triage fact (returns of every visitor passed to WalkExp)",
+    "C10": ("iteration-order analysis of every range-over-map loop reachable from the deterministic entry points (SSA loop bodies, effect classification, collect-then-sort recognition, call-effect fix-point over the VTA call graph) + self-validating triage table + positive examples + sibling agreement of key-order comparators + completeness of location comparisons in comparators of map-collected keys (closures and Less methods, accessors looked through) + scope extended to the text rendering of `mro graph` + comparator-indexes-the-sorted-slice (captured cells and receiver field paths resolved) + returns count as uses of an accumulator stored into an escaping cell + deep variance of freshly allocated return values (fields stored with loop-variant values) + scope extended to argument/output validation text + re-validated triage fact (returns of every visitor passed to WalkExp) + no goroutine in the compile drivers",
             "A structural necessary condition: Go's randomised map iteration is the only nondeterminism source in compile/format/resolve code (checked: no goroutine/clock/random there), so every map loop must have only order-insensitive effects, be collect-then-sort, or be triaged with a reason that the checker re-validates. "
             "Found 34 loops where map order reached error text, comment output or filtered JSON (18 distinct error texts in 60 compiles); fixed by sorted iteration.",
             "Not decided: order dependence through pointer identity, sort comparators that are not total orders, stability of topoSort. The 15 triage entries are the trusted part (each with a reason; 7 carry a machine-checked condition).",
@@ -99,25 +99,25 @@ CLAIMED.update({
 })
 
 CLAIMED.update({
-    "C17": ("sibling agreement over all implementations of the Type interface (guard dominance) + operand symmetry (taint classes) + phi-flag analysis over go/ssa (partial claim) + guard exclusion sets for raw strings written into rebuilt JSON + all-elements product search (original returned only if no component changed) + type-level scan of decode destinations in validators/filters (no json.Number, no interface{}) + refusal backed by member-type assignability in StructType.IsAssignableFrom + every-iteration rule over StructType.Members in all IsAssignableFrom implementations + filtered result (not the input) returned after FilterJson at stage boundaries + array projection keeps remaining dimensions + memo-key completeness for skipped members",
+    "C17": ("sibling agreement over all implementations of the Type interface (guard dominance) + operand symmetry (taint classes) + phi-flag analysis over go/ssa (partial claim) + guard exclusion sets for raw strings written into rebuilt JSON + all-elements product search (original returned only if no component changed) + type-level scan of decode destinations in validators/filters (no json.Number, no interface{}) + refusal backed by member-type assignability in StructType.IsAssignableFrom + every-iteration rule over StructType.Members in all IsAssignableFrom implementations + filtered result (not the input) returned after FilterJson at stage boundaries + array projection keeps remaining dimensions + memo-key completeness for skipped members + int arm of IsValidJson returns only decode results + text test before the float fallback of the int filter",
             "Structural necessary conditions: every IsValidJson / FilterJson implementation accepts null first and without effect; every IsAssignableFrom / CheckEqual pairs the same component of receiver and argument; JSON rebuilders keep the identity fast path and raise the 'different' flag whenever a component changed.",
             "Partial: idempotence, validity of the rebuilt JSON and int/float normalisation are value-level and not decided.",
             "DESIGN.md §4 C17"),
-    "C07": ("operand symmetry over the assignability/equality relations + sibling agreement of the reference arm of every IsValidExpression implementation (guard dominance over go/ssa) (thin claim) + guard dominance with invalidation (map wrap, merge HasRef) + guard dominance in the function or at all calls (map unwrap only without array dimension) + phase-order typestate (no read of BindStms.Table reachable from the topological sort; premise re-established) + loop-index recurrence of the in-place topological sort + must-pass-through (KnownLength consulted between obtaining a merged source set and returning it) + type-argument derivation in every arm of SplitExp.FindTypedRefs + every-iteration rule over StructType.Members + memo-key completeness (a loop that skips members by a set lookup keys the set by what the skipped check depends on) + outer-dimension-first ordering of ArrayDim/MapDim dispatch + must-do of the binding's compile step before an expanded wildcard binding joins the list",
+    "C07": ("operand symmetry over the assignability/equality relations + sibling agreement of the reference arm of every IsValidExpression implementation (guard dominance over go/ssa) (thin claim) + guard dominance with invalidation (map wrap, merge HasRef) + guard dominance in the function or at all calls (map unwrap only without array dimension) + phase-order typestate (no read of BindStms.Table reachable from the topological sort; premise re-established) + loop-index recurrence of the in-place topological sort + must-pass-through (KnownLength consulted between obtaining a merged source set and returning it) + type-argument derivation in every arm of SplitExp.FindTypedRefs + every-iteration rule over StructType.Members + memo-key completeness (a loop that skips members by a set lookup keys the set by what the skipped check depends on) + outer-dimension-first ordering of ArrayDim/MapDim dispatch + must-do of the binding's compile step before an expanded wildcard binding joins the list + must-pass-through of the unbound-parameter scan before BindStms.compile succeeds",
             "Two mechanisms, not the property's behaviour: assignability recurses on the right operands; a reference is accepted only after resolveType succeeded and the referenced type is assignable TO the receiver type, in every implementation of the interface.",
             "Thin: soundness of the whole relation, projection, map-call dimensions and error locations are not decided.",
             "DESIGN.md §4 C07"),
 })
 
 CLAIMED.update({
-    "C19": ("field-coverage (which syntax fields the refactoring code reads, per entry point over the call graph incl. Apply methods of created edits, and per enumerating function) + sibling agreement of the expression walkers' type switches (thin claim) + whole-name-match lint + inferred key domains of the callable tables + name-space separation + live-identity check on edits + complete enumeration (no sub-slice of / early exit from loops over binding lists in the rename walkers) + visiting of every called pipeline in the unused-output search + wildcard bindings considered by renames + no identity comparison of declaration objects across separately compiled files + every iteration over the ASTs examines the top-level call + loop-phase separation of candidate population and top-call removal + memo-key completeness (sets spanning several ASTs keyed by declaration id, loops and recursive walks) + side effects sought at any depth (no narrowing to pipelines before the recursive call) + accumulation of the Apply verdict over the files of a pass (loop-carried phi feeds its own update)",
+    "C19": ("field-coverage (which syntax fields the refactoring code reads, per entry point over the call graph incl. Apply methods of created edits, and per enumerating function) + sibling agreement of the expression walkers' type switches (thin claim) + whole-name-match lint + inferred key domains of the callable tables + name-space separation + live-identity check on edits + complete enumeration (no sub-slice of / early exit from loops over binding lists in the rename walkers) + visiting of every called pipeline in the unused-output search + wildcard bindings considered by renames + no identity comparison of declaration objects across separately compiled files + every iteration over the ASTs examines the top-level call + loop-phase separation of candidate population and top-call removal + memo-key completeness (sets spanning several ASTs keyed by declaration id, loops and recursive walks) + side effects sought at any depth (no narrowing to pipelines before the recursive call) + accumulation of the Apply verdict over the files of a pass (loop-carried phi feeds its own update) + element-keeping on every iteration of removeRefFromExp unless shouldRemoveExpCallRef holds",
             "Two mechanisms, not the behaviour: every place where a renamed or removed name can occur (call/modifier/return bindings, pipeline retains, top-level call) is visited by the refactoring that concerns it; every expression walker has an arm for each reference-bearing expression kind and recurses (or enumerates with FindRefs).",
             "Thin: that the edited program compiles, call-graph equality and rename round-trips are not decided.",
             "DESIGN.md §4 C19"),
 })
 
 CLAIMED.update({
-    "C16": ("type-level scan of JSON decode destinations on the conversion path + writer/reader key agreement (constants and struct tags) + guard dominance + value derivation over go/ssa (thin claim) + type-switch-arm dominance of dimension adjustments (in the function or at every call, constant boolean arguments respected) + sortedness typestate for binary searches (a sort of the same value dominates every search) + backward slice of the recorded include (independent of the include chain) + separator test dominating every path-tail return of IncludeFilePath + guard classification of rune replacement in the string decoder (exact surrogate tests only) + surrogate pairs combined + type table initialised before GetCallable hands it out + language membership of JSON escapes in the tokenizer's string-rule constant (regexp evaluated on constant probes) + 2^53 bound on integer->float conversions in the float-literal parser + key-dependent type argument for object entries in convertToExp",
+    "C16": ("type-level scan of JSON decode destinations on the conversion path + writer/reader key agreement (constants and struct tags) + guard dominance + value derivation over go/ssa (thin claim) + type-switch-arm dominance of dimension adjustments (in the function or at every call, constant boolean arguments respected) + sortedness typestate for binary searches (a sort of the same value dominates every search) + backward slice of the recorded include (independent of the include chain) + separator test dominating every path-tail return of IncludeFilePath + guard classification of rune replacement in the string decoder (exact surrogate tests only) + surrogate pairs combined + type table initialised before GetCallable hands it out + language membership of JSON escapes in the tokenizer's string-rule constant (regexp evaluated on constant probes) + 2^53 bound on integer->float conversions in the float-literal parser + key-dependent type argument for object entries in convertToExp + uses of StringExp.Value in its JSON methods restricted to quoteString/len/comparisons",
             "Four structural necessary conditions: numbers are never decoded through interface{} or a float type on the conversion path (they stay text and are read by the MRO value parser, so large integers survive); "
             "the object key SplitExp.encodeJSON writes equals the JSON tag convertToExp reads; the split status of an argument is recorded on the *SplitExp edge and restored by wrapping under the split flag; "
             "the per-fork invocation is BuildCallSource of this fork's resolved inputs.",
@@ -126,7 +126,7 @@ CLAIMED.update({
 })
 
 CLAIMED.update({
-    "C13": ("write-site classification of the JSON buffer (constant / json.RawMessage by type / encoder result) with error-path exemption decided from the returns reachable after the write + must-pass-through (a value is written on every path that can return nil; every iteration of a separator-writing loop writes its element) + backward provenance of rename/symlink destinations + all-members rule on the duplicate out-name set of StructType.compile + leaf agreement between a link read and the directory its relative target is joined with + stat of the destination before a missing source is recorded as null + guard dominance of IsLegalUnixFilename over map keys joined into paths + every-iteration key collection + buffer-write provenance in the symlink arm (destination, not outs/ name) + element type keeps remaining dimensions + rewritten element (not the input) recorded after processStructOuts (thin claim) (strconv.Quote is not a JSON encoder) + monotone update of the struct's file kind (store dominated by a read of the current value)",
+    "C13": ("write-site classification of the JSON buffer (constant / json.RawMessage by type / encoder result) with error-path exemption decided from the returns reachable after the write + must-pass-through (a value is written on every path that can return nil; every iteration of a separator-writing loop writes its element) + backward provenance of rename/symlink destinations + all-members rule on the duplicate out-name set of StructType.compile + leaf agreement between a link read and the directory its relative target is joined with + stat of the destination before a missing source is recorded as null + guard dominance of IsLegalUnixFilename over map keys joined into paths + every-iteration key collection + buffer-write provenance in the symlink arm (destination, not outs/ name) + element type keeps remaining dimensions + rewritten element (not the input) recorded after processStructOuts (thin claim) (strconv.Quote is not a JSON encoder) + monotone update of the struct's file kind (store dominated by a read of the current value) + every exit of moveOutFile (error exits too) has written into the buffer",
             "Five structural necessary conditions: everything written into the rebuilt top-level _outs is JSON by construction (keys and moved paths go through json.Marshal; raw strings only on paths that end in a non-nil error); "
             "every path through a writer that can succeed has written a value; no iteration of a separator-writing loop skips its element; files are moved/linked to the path built from the member's GetOutFilename(); "
             "the compiler's duplicate out-name rejection looks up and records every member with a non-empty out filename, and the struct synthesised from each callable's outputs goes through it.",
